@@ -67,6 +67,16 @@ func (o *Out) Emit(op string, obs string, nontrivial bool) {
 func (o *Out) Count(k string) { o.dist[k]++ }
 
 func (o *Out) Fail(key string, detail string) {
+	// VERIF_FAIL_FILTER / VERIF_FAIL_EXCLUDE: as in the app engines (engines/app/common_test.go) — C19 borrows engine `epochs` for its
+	// export/import op only, and C17 leaves export/import failures to C19
+	if f := os.Getenv("VERIF_FAIL_FILTER"); f != "" && !strings.Contains(key, f) {
+		o.dist["filtered-oracle-failure."+key]++
+		return
+	}
+	if f := os.Getenv("VERIF_FAIL_EXCLUDE"); f != "" && strings.Contains(key, f) {
+		o.dist["excluded-oracle-failure."+key]++
+		return
+	}
 	o.fails++
 	o.failKeys[key]++
 	if o.failKeys[key] > 40 {
